@@ -180,6 +180,9 @@ func main() {
 			{"confirm-bad-base64", st("confirm", []string{"!!!"}, []byte("p")), "confirm"},
 			{"confirm-bad-no", st("confirm", []string{"QQ", "Q"}, []byte("p")), "confirm"},
 			{"confirm-bad-yes-good-no", st("confirm", []string{"!!!", "Tm8"}, []byte("p")), "confirm"},
+			// labels that are base64 with non-zero trailing bits ("eR" decodes leniently to "y", "bk" to "n"): malformed
+			{"confirm-noncanonical-yes", st("confirm", []string{"eR"}, []byte("p")), "confirm"},
+			{"confirm-good-yes-noncanonical-no", st("confirm", []string{"eQ", "bk"}, []byte("p")), "confirm"},
 			{"unknown", st("frobnicate", []string{"x"}, []byte("y")), ""},
 			{"grease", st("grease-1a2b", nil, nil), ""},
 			{"unknown-5000-byte-line", st("frobnicate", []string{strings.Repeat("x", 5000)}, []byte("y")), ""},
